@@ -374,6 +374,7 @@ func recFlags(s *swap.SwapStateMachine) map[string]string {
 		"feepre":   b(d.FeePreimage != ""),
 		"nextmsg":  fmt.Sprint(d.NextMessageType),
 		"lasterr":  errClassOf(d.LastErrString),
+		"inagree":  b(d.SwapInAgreement != nil),
 	}
 }
 
